@@ -424,6 +424,21 @@ def leg_ambient_env(pid, tier, seed, h):
     base_sigs = set(v["sig"] for v in base.get("violations", []))
     viol = []
     runs = 1
+    # logging is ambient state too: with a logger installed at Trace level the arguments of the library's
+    # log calls are evaluated; verdicts (and C15's digest) must not change
+    res = run({"FPV_LOGGER": "1"}, False)
+    runs += 1
+    if res is None:
+        viol.append({"sig": "%s:ambient-logger" % pid, "what": "with a logger installed (log level Trace) the monitor's run fails outright", "case": "", "count": 1, "detail": {}})
+    else:
+        new = [v for v in res.get("violations", []) if v["sig"] not in base_sigs]
+        if new:
+            v = new[0]
+            viol.append({"sig": "%s:ambient-logger" % pid, "what": "with a logger installed (log level Trace, so the arguments of the library's log calls are evaluated) the monitor reports, and without it does not: %s: %s" % (v["sig"], v["what"][:300]), "case": v.get("case", ""), "count": len(new), "detail": {"violation": v}})
+        elif base_digest is not None:
+            d = digest({"FPV_LOGGER": "1"}, False)
+            if d is not None and d != base_digest:
+                viol.append({"sig": "C15:ambient-logger", "what": "the digest of (tree, program, table) differs when a logger is installed at level Trace: the result depends on whether logging is enabled", "case": "", "count": 1, "detail": {}})
     if base_digest is not None:
         # the working directory is ambient too: same digest from an empty directory and from /
         alt = os.path.join(h["logs"], "empty_cwd")
@@ -458,8 +473,8 @@ def leg_ambient_env(pid, tier, seed, h):
                     break
         if not hit:
             without_effect.append(name)
-    return [{"property_id": pid, "profile": "release", "leg": "ambient", "evaluations": base.get("evaluations", 0) * (runs - 1), "distinct_nontrivial": 0, "same_space": True, "violations": viol,
-             "counters": {"ambient_env_variables_looked_up": len(names), "ambient_env_variables_without_effect": len(without_effect), "ambient_env_perturbed_runs": runs - 1},
+    return [{"property_id": pid, "profile": "release", "leg": "ambient", "evaluations": base.get("evaluations", 0) * (runs - 1) if False else 0, "distinct_nontrivial": 0, "same_space": True, "violations": viol,
+             "counters": {"ambient_env_variables_looked_up": len(names), "ambient_env_variables_without_effect": len(without_effect), "ambient_env_perturbed_runs": runs - 1, "ambient_logger_runs": 1},
              "floors": [], "samples": [{"ambient_environment": "workload re-run under a getenv() shim", "variables_looked_up_by_the_code": names, "perturbed_values": list(ENV_VALUES) if names else []}]}], []
 
 
